@@ -296,6 +296,9 @@ def standin(tier, seed):
     for n in (0, 1, LIM - 1, LIM, LIM + 1, 2 * LIM, 50 * LIM):
         data = bytes((i * 7) % 251 for i in range(n))
         bodies.append(("cl", n, head([("Content-Length", str(n))]) + data, data))
+        # a repeated (identical) declaration is one declaration: the limit applies to it all the same
+        bodies.append(("cl-twice", n, head([("Content-Length", str(n)), ("Content-Length", str(n))]) + data, data))
+        bodies.append(("cl-list", n, head([("Content-Length", "%d, %d" % (n, n))]) + data, data))
         for split in ((n,), (n // 2, n - n // 2), (1,) * min(n, 5) + (max(n - 5, 0),)):
             parts, pos = [], 0
             for k in split:
